@@ -179,6 +179,25 @@ structure AddOpts where
       transaction event (after `graph.add`, before `updateState`) -/
   savePayloadEventFails : Bool := false
   saveTxEventFails : Bool := false
+  /-- a store fault: the k-th `Put` (1-based) of the write transaction fails. The puts, in order: payload and, after
+      the payload event was saved, the "payload event saved" mark (both only when a payload is given); clock index,
+      transaction, lc_high, head_ref (only when the head changes), tx_num; IBLT leaf; XOR leaf. -/
+  putFails : Option Nat := none
+
+/-- `updateState` interrupted by a failing `Put`: `stage = 1` — the IBLT leaf put failed (atomic clock raised, IBLT tree
+    holds the transaction, XOR tree untouched); `stage = 2` — the XOR leaf put failed (both trees hold it). Nothing of
+    the transaction's disk image survives (the caller rolls back). -/
+def partialUpdate (s : State n) (tx : Tx) (stage : Nat) : State n :=
+  let lc := if s.mem.lcHigh ≥ tx.clock then s.mem.lcHigh else tx.clock
+  let it := (s.mem.ibltTree.insert (ibltOps n) tx.ikey tx.clock).resetUpdates
+  let xt := if stage ≥ 2 then (s.mem.xorTree.insert xorOps tx.ref tx.clock).resetUpdates else s.mem.xorTree
+  { s with mem := { s.mem with lcHigh := lc, ibltTree := it, xorTree := xt } }
+
+/-- does the k-th put fail, given that the puts `lo+1 … hi` are about to be made? -/
+def putFailsIn (opt : Option Nat) (lo hi : Nat) : Bool :=
+  match opt with
+  | some k => lo < k && k ≤ hi
+  | none => false
 
 /-- `state.Add`. Returns the new state and the call's outcome. -/
 def add (cfg : Cfg) (s : State n) (tx : Tx) (opt : AddOpts) : State n × Res Unit :=
@@ -192,12 +211,21 @@ def add (cfg : Cfg) (s : State n) (tx : Tx) (opt : AddOpts) : State n × Res Uni
     if s.disk.isPresent tx.ref then
       (if opt.commitFails then (rollback cfg s, .err "commit-failed") else (s, .ok ()))
     else if opt.payload == some false then (rollback cfg s, .err "payload-hash-mismatch")
+    else
+    let np1 := if opt.payload.isSome then 1 else 0
+    let np := np1 + np1
+    if putFailsIn opt.putFails 0 np1 then (rollback cfg s, .err "put-failed")
     else if opt.payload.isSome && opt.savePayloadEventFails then (rollback cfg s, .err "save-failed")
+    else if putFailsIn opt.putFails np1 np then (rollback cfg s, .err "put-failed")
     else match s.disk.graphAdd tx with
       | .err e => (rollback cfg s, .err e)
       | .panic e => (rollback cfg s, .panic e)
       | .ok d =>
+        let ng := np + 4 + (if tx.clock > s.disk.lcHigh || tx.clock == 0 then 1 else 0)
+        if putFailsIn opt.putFails np ng then (rollback cfg s, .err "put-failed") else
         if opt.saveTxEventFails then (rollback cfg s, .err "save-failed") else
+        if putFailsIn opt.putFails ng (ng + 1) then (rollback cfg (partialUpdate s tx 1), .err "put-failed") else
+        if putFailsIn opt.putFails (ng + 1) (ng + 2) then (rollback cfg (partialUpdate s tx 2), .err "put-failed") else
         let s' := updateState s d tx
         if opt.commitFails then (rollback cfg { s' with disk := s.disk }, .err "commit-failed")
         else (s', .ok ())
